@@ -316,9 +316,14 @@ def fact_ob(label, fact, group=None):
 
 
 # ------------------------------------------------------------------ harness wrapper
-def make_harness(scenario, cfg):
+def make_harness(scenario, cfg, stats=None):
     def h(ctx):
         obs = scenario(ctx, cfg)
+        if stats is not None and stats.done_groups:
+            # a violated group already has reproduced counterexamples in this job: do not search for more
+            kept = [o for o in obs if o['group'] not in stats.done_groups]
+            stats.skipped_dups += len(obs) - len(kept)
+            obs = kept
         subs = bindings(ctx)
         summaries = [run_summary(r) for r in ctx.runs]
         compiled = []
@@ -574,12 +579,17 @@ class Stats(object):
         self.samples = []
         self.outside = 0
         self.nomodel = 0
+        self.done_groups = set()
+        self.skipped_dups = 0
 
 
 def model_dict(ctx, m):
     out = {}
     for n, v in ctx.inputs.items():
         x = symx.model_value(m, v)
+        out[n] = str(x) if isinstance(x, Fraction) else x
+    for n, _ in ctx.defs:       # defined auxiliary values (square roots) the obligation templates may mention
+        x = symx.model_value(m, z3.Real(n))
         out[n] = str(x) if isinstance(x, Fraction) else x
     return out
 
@@ -608,6 +618,8 @@ def make_on_path(cfg, stats, prop, validate=True, max_cex_per_group=2):
             rec = _replay_cex(ctx, o, mdl, cfg, prop)
             if rec.get('reproduced'):
                 seen_groups[key] += 1
+                if seen_groups[key] >= max_cex_per_group:
+                    stats.done_groups.add(o['group'])
                 stats.cex.append(rec)
             else:
                 stats.unreproduced.append(rec)
@@ -699,6 +711,8 @@ def ctx_inputs_env(ctx, m):
     env = {}
     for n, v in ctx.inputs.items():
         env[n] = symx.model_value(m, v)
+    for n, _ in ctx.defs:
+        env[n] = symx.model_value(m, z3.Real(n))
     return env
 
 
@@ -733,7 +747,7 @@ def run_scenario_job(scenario, cfg, prop, seed=0, max_paths=6000, validate=True,
     on_path = make_on_path(cfg, stats, prop, validate=validate)
     deadline = (t0 + deadline_s) if deadline_s else None
     try:
-        res = symx.explore(make_harness(scenario, cfg), max_paths=max_paths, seed=seed, ob_timeout=ob_timeout,
+        res = symx.explore(make_harness(scenario, cfg, stats), max_paths=max_paths, seed=seed, ob_timeout=ob_timeout,
                            start=cfg.get('prefixes'), on_path=on_path, deadline=deadline)
     finally:
         WORKER.close()
